@@ -226,6 +226,21 @@ def run(ctx):
             w = op.split(" ")
             ctx.violation(f"C12|entry|{w[1]}.{w[2]}", f"{op}: expected (constructor, converter) = {exp}, real code gave {got}",
                           {"op": op, "expected": exp, "observed": got})
+    # the converter entry point IN CONTEXT: an out-of-range int at an integer property of a nested object (inside arrays, maps, union
+    # alternatives, message envelopes) of an otherwise valid value must make structuring of the whole value raise, as it does when the
+    # class is structured directly (the nested stream of the C11 oracle, restricted to the range edit)
+    q = common.run_py(common.VERIF / "tools/search/convcheck.py", ["C11", "--seed", str(ctx.seed), "--nested-only"], check=False)
+    if q.returncode != 0:
+        broken.append("nested range oracle crashed: " + q.stderr[-400:])
+    else:
+        o = json.loads(q.stdout)
+        ctx.corr["evaluations"] += o.get("evaluations", 0)
+        ctx.corr["distinct_nontrivial"] += o.get("distinct", 0)
+        kinds["nested"] = o.get("evaluations", 0)
+        for m in o["mismatches"]:
+            if m["aspect"] == "nested-out-of-range":
+                ctx.violation(f"C12|nested|{m['site']}", f"out-of-range integer accepted inside {m['site']}: {m['observed'][:160]}",
+                              {"root": m.get("root"), "input": m.get("input"), "expected": "structuring raises", "observed": m["observed"]})
     ctx.dist = {"ops_by_kind": kinds, "integer_attribute_sites": len(sites)}
     for o in ops[:: max(1, len(ops) // 6)]:
         ctx.sample(o)
